@@ -1,51 +1,5 @@
-# Per-property configuration of the driver: worker binary, tiers, evidence texts.
-PROPS = {
-    "C05": dict(
-        bin="c05", level="exploration", crash="violation",
-        technique="round-trip oracle over generated messages and chunked streams (Pack -> chunking reader -> Unpack, field-wise comparison, size alone vs in stream)",
-        level_text="Exploration: the real Pack/Unpack of all 8 shipped protocol objects are driven with boundary-value and seeded random messages "
-                   "(one field varied at a time over labelled classes, plus mixed messages) and with streams of 1..50 frames through four chunkings; "
-                   "a deterministic oracle compares every field with the protocol's documented field set. Held on the inputs generated, not a proof over all inputs.",
-        level_note="Trusted: the per-protocol expectation table (what each protocol documents it carries) in harness/cmd/c05; gjson/protobuf/thrift libraries as linked; "
-                   "websocket sub-protocols are exercised per message (their frame boundaries come from the websocket layer).",
-        quick=dict(batches=8, timeout=600, floor=5000),
-        thorough=dict(batches=32, timeout=1800, floor=100000),
-        rule="each message varies one field (seq, mtype, method, status, meta, codec, body, pipe) over a labelled value class "
-             "(boundary lengths, every byte value, punctuation, control bytes, UTF-8, extreme seq, every registered codec, pipes up to 255) "
-             "or several fields at once (mixed); streams are 1..50 back-to-back frames; every message/stream is unpacked through 4 chunkings "
-             "(whole, 1 byte, 7 bytes, PRNG). distinct_nontrivial = distinct (protocol, field=class) and (protocol, stream length) pairs actually executed.",
-        assumptions=["documented field sets per protocol as encoded in harness/cmd/c05 (vary/expected): http maps metadata onto canonicalised single-valued headers and carries "
-                     "no PUSH; thrift-struct has no codec/pipe; websocket sub-protocols carry no status (that is C04's business)",
-                     "service methods are text except for raw"],
-    ),
-    "C01": dict(
-        bin="c01", level="exploration", crash="violation",
-        quick=dict(batches=12, timeout=900, floor=5000),
-        thorough=dict(batches=64, timeout=3600, floor=100000),
-        technique="token-traffic oracle on real peers (self-consistent token/payload/metadata checks at callers, handlers and push receivers; canaries; measured context recycling; gate delays)",
-        rule="a case is one traffic configuration (protocol x body kinds x filter pipe x sessions x goroutines x read chunking x logging x gate-delay rate) "
-             "run with real peers over in-memory connections, both directions at once, Call / AsyncCall bursts on a shared channel / Push mixed; "
-             "evaluations = calls and pushes issued; a configuration is non-trivial when >= 2 handlers were in flight at once and at least one pooled "
-             "handler context was observed being reused; distinct_nontrivial counts distinct such configurations.",
-        level_text="Exploration under stress: real sessions carry token traffic whose payload, metadata and expected reply are pure functions of the token; "
-                   "callers, handlers (at entry and again at exit after yielding) and push receivers check self-consistency, so any byte of another message is detected "
-                   "and attributed. Schedules are widened with seeded gate delays between critical sections. Held on the executions produced.",
-        level_note="Only OK completions are judged (failed calls are C02/C04). Protocols through their public ProtoFunc over memconn; websocket stacks, TLS/KCP/QUIC transports not exercised here. "
-                   "Payloads are printable ASCII (codec byte-transparency is C11).",
-        assumptions=["in-memory net.Conn (harness/memconn) stands in for TCP", "handlers are harness code following the documented handler API"],
-    ),
-    "C14": dict(
-        bin="c01", race=True, level="exploration", crash="violation", par=8,
-        quick=dict(batches=6, timeout=1500, floor=3000, args=["-soup", "-lean"]),
-        thorough=dict(batches=48, timeout=3600, floor=50000, args=["-soup", "-lean"]),
-        technique="Go race detector (-race build of the real code) under token traffic plus an API soup on shared sessions; reports de-duplicated and classified by accessing frames",
-        rule="the C01 traffic configurations run in a -race build with an API soup (SetID, Swap store/load/range, ages, GetSession/RangeSession/CountSession, Health, CloseNotify, concurrent Peer.Close) "
-             "from 4 extra goroutines per session; evaluations = calls and pushes issued under the detector; non-trivial = configurations with >= 2 handlers in flight and context reuse observed; "
-             "race reports are counted from the detector's log, de-duplicated by the pair of accessing frames.",
-        level_text="Exploration with a sanitizer as the oracle: the race detector tracks happens-before on every execution produced; a report whose accessing frame is in an eRPC package "
-                   "(or in third-party code reached only through eRPC) is a violation; a report between two harness frames makes the run a broken check. Only code reached is judged.",
-        level_note="-race needs -gcflags=all=-d=checkptr=0 (router.go uintptr arithmetic). Harness monitors use atomics/mutexes and therefore add some happens-before edges that could hide a race; "
-                   "the logger level is set once per process because SetLoggerLevel is documented as not concurrent-safe.",
-        assumptions=["operations not documented as concurrent-safe (SetLoggerOutputter, route registration, filter/codec Reg) are not mixed in"],
-    ),
-}
+# Per-property configuration of the driver lives in props/<id>.json (worker binary, tiers, evidence texts).
+import glob, json, os
+PROPS = {}
+for _f in sorted(glob.glob(os.path.join(os.path.dirname(os.path.abspath(__file__)), "props", "C*.json"))):
+    PROPS[os.path.basename(_f)[:-5]] = json.load(open(_f))
